@@ -73,6 +73,8 @@ def bounds(tier, seed):
 
 
 FIELD_OPS = ['-1', '+1', 'x2', '/2', '0', 'far']
+# a rewritten $TOT / $PAR / $PnB of another digit count shifts the later segments: these offsets change as a consequence
+SHIFTED = ('$BEGINDATA', '$ENDDATA', '$BEGINSTEXT', '$ENDSTEXT', '$BEGINANALYSIS', '$ENDANALYSIS')
 
 
 def op_apply(v, op, far):
@@ -208,9 +210,9 @@ def patch_field(buf, info, field, op, lay):
         nv = {'-1': v - 8, '+1': v + 8, 'x2': v * 2, '/2': v // 2, '0': 0, 'far': 4096}[op]
         if nv == v:
             return None
-        return rebuild_with_declared_bits(dict(lay), j, nv), (field,)
+        return rebuild_with_declared_bits(dict(lay), j, nv), (field,) + SHIFTED
     b2, _ = fcsgen.build(lay2)
-    return b2, (field,)
+    return b2, (field,) + SHIFTED
 
 
 def rebuild_with_declared_bits(lay, j, nv):
